@@ -191,93 +191,100 @@ def matchHiddenOrAliased (c : MCtx) (cs : List VNode) : List (List VNode) :=
     | .mk k' n' false f' [] :: rest => if k' = v ∧ n' = n ∧ f' = c.effField then [rest] else []
     | _ => []
 
-mutual
-  def matchRule (g : Grammar) : Nat → Rule → MCtx → List VNode → List (List VNode)
-    | 0, _, _, _ => []
-    | f + 1, r, c, cs =>
-      match r with
-      | .blank => [cs]
-      | .str s => matchLeaf c s false cs
-      | .pat _ => matchHiddenOrAliased c cs
-      | .token a =>
-        match tokenString a with
-        | some s => matchLeaf c s false cs
-        | none => matchHiddenOrAliased c cs
-      | .immToken a =>
-        match tokenString a with
-        | some s => matchLeaf c s false cs
-        | none => matchHiddenOrAliased c cs
-      | .seq a b => dedupLen ((matchRule g f a c cs).flatMap fun rem => matchRule g f b c rem)
-      | .choice a b => dedupLen (matchRule g f a c cs ++ matchRule g f b c cs)
-      | .rep a =>
-        match c.effAlias with
+/-- The matcher, parameterised by the check `cb b kids` of "the children `kids` of a node derive from
+the body `b`" (the recursive checker below passes itself with less fuel; the memoising checker of
+`Memo.lean` passes a table look-up, so that the body of a node is checked once and not once per
+alternative that mentions it). -/
+def matchRuleP (g : Grammar) (cb : Rule → List VNode → Bool) : Nat → Rule → MCtx → List VNode → List (List VNode)
+  | 0, _, _, _ => []
+  | f + 1, r, c, cs =>
+    match r with
+    | .blank => [cs]
+    | .str s => matchLeaf c s false cs
+    | .pat _ => matchHiddenOrAliased c cs
+    | .token a =>
+      match tokenString a with
+      | some s => matchLeaf c s false cs
+      | none => matchHiddenOrAliased c cs
+    | .immToken a =>
+      match tokenString a with
+      | some s => matchLeaf c s false cs
+      | none => matchHiddenOrAliased c cs
+    | .seq a b => dedupLen ((matchRuleP g cb f a c cs).flatMap fun rem => matchRuleP g cb f b c rem)
+    | .choice a b => dedupLen (matchRuleP g cb f a c cs ++ matchRuleP g cb f b c cs)
+    | .rep a =>
+      match c.effAlias with
+      | none =>
+        cs :: dedupLen ((matchRuleP g cb f a c.enter cs).flatMap fun rem =>
+          if rem.length < cs.length then matchRuleP g cb f (.rep a) c rem else [])
+      | some (v, n) =>
+        cs :: ((match cs with
+          | .mk k' n' false f' kids :: rest =>
+            if k' = v ∧ n' = n ∧ f' = c.effField ∧ cb (.rep a) kids = true then [rest] else []
+          | _ => []) ++
+         (match cs with
+          | x :: rest =>
+            if c.fAlias.isSome = true ∧
+                (matchRuleP g cb f a { fField := c.effField, fAlias := some (v, n) } [x]).any (fun rem => rem.isEmpty) = true
+            then [rest] else []
+          | [] => []))
+    | .rep1 a =>
+      match c.effAlias with
+      | none => dedupLen ((matchRuleP g cb f a c.enter cs).flatMap fun rem => matchRuleP g cb f (.rep a) c rem)
+      | some (v, n) =>
+        (match cs with
+        | .mk k' n' false f' kids :: rest =>
+          if k' = v ∧ n' = n ∧ f' = c.effField ∧ cb (.rep1 a) kids = true then [rest] else []
+        | _ => []) ++
+        (match cs with
+          | x :: rest =>
+            if c.fAlias.isSome = true ∧
+                (matchRuleP g cb f a { fField := c.effField, fAlias := some (v, n) } [x]).any (fun rem => rem.isEmpty) = true
+            then [rest] else []
+          | [] => [])
+    | .field n a => matchRuleP g cb f (stripField a) { c with field := some n } cs
+    | .alias v n a => matchRuleP g cb f (stripAlias a) { c with alias := some (v, n) } cs
+    | .prec _ _ a => matchRuleP g cb f a c cs
+    | .sym x =>
+      match g.body x with
+      | none =>
+        match nodeKind g c x with
+        | none => [cs]
+        | some (k, n) =>
+          match cs with
+          | .mk k' n' false f' [] :: rest => if k' = k ∧ n' = n ∧ f' = c.effField then [rest] else []
+          | _ => []
+      | some b =>
+        match nodeKind g c x with
         | none =>
-          cs :: dedupLen ((matchRule g f a c.enter cs).flatMap fun rem =>
-            if rem.length < cs.length then matchRule g f (.rep a) c rem else [])
-        | some (v, n) =>
-          cs :: ((match cs with
-            | .mk k' n' false f' kids :: rest =>
-              if k' = v ∧ n' = n ∧ f' = c.effField ∧ checkBody g f (.rep a) kids = true then [rest] else []
-            | _ => []) ++
-           (match cs with
-            | x :: rest =>
-              if c.fAlias.isSome = true ∧
-                  (matchRule g f a { fField := c.effField, fAlias := some (v, n) } [x]).any (fun rem => rem.isEmpty) = true
-              then [rest] else []
-            | [] => []))
-      | .rep1 a =>
-        match c.effAlias with
-        | none => dedupLen ((matchRule g f a c.enter cs).flatMap fun rem => matchRule g f (.rep a) c rem)
-        | some (v, n) =>
+          (if isTerminalBody b then [cs] else []) ++ matchRuleP g cb f b (expandCtx g c x) cs
+        | some (k, n) =>
           (match cs with
           | .mk k' n' false f' kids :: rest =>
-            if k' = v ∧ n' = n ∧ f' = c.effField ∧ checkBody g f (.rep1 a) kids = true then [rest] else []
+            if k' = k ∧ n' = n ∧ f' = c.effField ∧ cb b kids = true then [rest] else []
           | _ => []) ++
           (match cs with
-            | x :: rest =>
-              if c.fAlias.isSome = true ∧
-                  (matchRule g f a { fField := c.effField, fAlias := some (v, n) } [x]).any (fun rem => rem.isEmpty) = true
-              then [rest] else []
-            | [] => [])
-      | .field n a => matchRule g f (stripField a) { c with field := some n } cs
-      | .alias v n a => matchRule g f (stripAlias a) { c with alias := some (v, n) } cs
-      | .prec _ _ a => matchRule g f a c cs
-      | .sym x =>
-        match g.body x with
-        | none =>
-          match nodeKind g c x with
-          | none => [cs]
-          | some (k, n) =>
-            match cs with
-            | .mk k' n' false f' [] :: rest => if k' = k ∧ n' = n ∧ f' = c.effField then [rest] else []
-            | _ => []
-        | some b =>
-          match nodeKind g c x with
-          | none =>
-            (if isTerminalBody b then [cs] else []) ++ matchRule g f b (expandCtx g c x) cs
-          | some (k, n) =>
-            (match cs with
-            | .mk k' n' false f' kids :: rest =>
-              if k' = k ∧ n' = n ∧ f' = c.effField ∧ checkBody g f b kids = true then [rest] else []
-            | _ => []) ++
-            (match cs with
-            | y :: rest =>
-              if g.hidden x = true ∧ c.fAlias.isSome = true ∧
-                  (matchRule g f b { fField := c.effField, fAlias := some (k, n) } [y]).any (fun rem => rem.isEmpty) = true
-              then [rest] else []
-            | [] => [])
-      | .unknown _ => []
-  def checkBody (g : Grammar) : Nat → Rule → List VNode → Bool
-    | 0, _, _ => false
-    | f + 1, b, kids =>
-      (isTerminalBody b && kids.isEmpty) ||
-      ((matchRule g f b {} (nonExtra kids)).any (fun rem => rem.isEmpty) &&
-        kids.all fun k => !k.extra || checkExtra g f k)
-  def checkExtra (g : Grammar) : Nat → VNode → Bool
-    | 0, _ => false
-    | f + 1, .mk k n _ fl kids =>
-      g.extras.any fun e => (matchRule g f e { field := fl, alias := none } [.mk k n false fl kids]).any (fun rem => rem.isEmpty)
-end
+          | y :: rest =>
+            if g.hidden x = true ∧ c.fAlias.isSome = true ∧
+                (matchRuleP g cb f b { fField := c.effField, fAlias := some (k, n) } [y]).any (fun rem => rem.isEmpty) = true
+            then [rest] else []
+          | [] => [])
+    | .unknown _ => []
+
+/-- one node of an extra rule -/
+def extraP (g : Grammar) (cb : Rule → List VNode → Bool) (f : Nat) : VNode → Bool
+  | .mk k n _ fl kids =>
+    g.extras.any fun e => (matchRuleP g cb f e { field := fl, alias := none } [.mk k n false fl kids]).any (fun rem => rem.isEmpty)
+
+/-- the children of a node derive from the body `b` (extras anywhere) -/
+def bodyP (g : Grammar) (cb : Rule → List VNode → Bool) (f : Nat) (b : Rule) (kids : List VNode) : Bool :=
+  (isTerminalBody b && kids.isEmpty) ||
+  ((matchRuleP g cb f b {} (nonExtra kids)).any (fun rem => rem.isEmpty) &&
+    kids.all fun k => !k.extra || extraP g cb f k)
+
+def checkBody (g : Grammar) : Nat → Rule → List VNode → Bool
+  | 0, _, _ => false
+  | f + 1, b, kids => bodyP g (fun b' ks' => checkBody g f b' ks') f b kids
 
 mutual
   def VNode.size : VNode → Nat
